@@ -7750,6 +7750,9 @@ class Subpath:
         if isinstance(other, Matrix):
             for e in self:
                 e *= other
+            # The segments belong to the backing path: its cached lengths refer to the geometry before the transform.
+            self._path._length = None
+            self._path._lengths = None
         return self
 
     def __mul__(self, other):
